@@ -2,7 +2,7 @@
 # refresh_seeded.sh [ids...]: re-run the quick check of the property each seeded change breaks against a scratch
 # worktree carrying the change, and record the verdict in seeded/<id>/meta.json (our_checks_quick_tier).
 cd "$(dirname "$0")/.."
-ids="$@"; [ -z "$ids" ] && ids=$(ls seeded)
+ids="$@"; [ -z "$ids" ] && ids=$(for d in $(ls seeded); do grep -q '"obsolete"' seeded/$d/meta.json || echo $d; done)
 one() {
   id=$1; prop=$(python3 -c "import json;print(json.load(open('seeded/$id/meta.json'))['breaks_property'])")
   res=$(tools/mutation_run.sh seeded/$id/patch.diff "$prop" 2>&1 | grep -v conda | grep -E "^(CAUGHT|MISSED|ERROR|PATCH)" | head -1)
